@@ -23,7 +23,7 @@ EXHAUSTIVE = {"quick": False, "thorough": False}
 NSHARDS = {"quick": 16, "thorough": 16}
 THRESHOLDS = {
     "quick": {"repotests:ambient:solver:return?repotests:runs": 50, "c02:unreachable-raised": 1000, "c02:multi-route-pairs": 1000, "c02:adv-mazes": 100, "c02:self-query": 100,
-              "c02:exh-structures": 6541, "c02:from-targeted": 50, "ambient:solver:return": 20, "c02:array-args": 100, "c02:large-mazes": 60, "c02:side>127": 6, "c02:two-lane-mazes": 12, "c02:long-lived-objects": 2, "c02:same-bytes-other-shape": 100, "c02:generator-made-mazes": 50, "c02:generator-made-disconnected": 15,
+              "c02:exh-structures": 6541, "c02:from-targeted": 50, "ambient:solver:return": 20, "c02:array-args": 100, "c02:large-mazes": 60, "c02:side>127": 6, "c02:two-lane-mazes": 12, "c02:long-lived-objects": 8, "c02:same-bytes-other-shape": 100, "c02:generator-made-mazes": 50, "c02:generator-made-disconnected": 15,
               "hits:find_shortest_path": 1000},
 }
 THRESHOLDS["thorough"] = {**THRESHOLDS["quick"], "c02:exh-structures-13-17-edges": 2 * 8192 + 2 * 131072}
@@ -242,27 +242,39 @@ def run(ctx):
             for (a, b) in ((s, e), (e, s)):
                 _solve(ctx, maze, g, a, b, dict(kind="two-lanes", n=n_cols, breaks=brk, transposed=tr, s=a, e=b), cache)
                 ctx.nontrivial("lanes", n_cols, brk, tr, a, b)
-    # ---- (2e) one long-lived maze object answering more than 2**16 queries (counters / epochs / caches that wrap or fill up) ------
-    if ctx.mine(5):
-        rng = ctx.sub_rng("longlived")
-        for (R, C), fam in (((3, 3), "ring"), ((4, 5), "cyc3")):
-            fam, cl = ref.random_structure(R, C, rng, fam)
-            g = Graph(cl)
-            maze = lib.lattice(cl)
-            cells = ref.all_cells(R, C)
-            cache = {}
-            allpairs = [(a, b) for a in cells for b in cells]
-            for (a, b) in allpairs:      # first sweep: every cell gets touched once
-                _solve(ctx, maze, g, a, b, dict(kind="long-lived", phase="first-sweep", shape=(R, C), cl=cl, s=a, e=b), cache)
-            # filler: cheap queries confined to one corner, judged like all others
-            corner = [cells[0], g.adj[cells[0]][0]] if g.adj[cells[0]] else [cells[0]]
-            n_fill = 2**16 + 40 - len(allpairs)
-            for t in range(n_fill):
-                a = corner[t % len(corner)]; b = corner[(t // 2) % len(corner)]
-                _solve(ctx, maze, g, a, b, dict(kind="long-lived", phase=f"filler query #{t}", shape=(R, C), cl=cl, s=a, e=b), cache)
-            for (a, b) in allpairs:      # after 2**16 queries on this object
-                _solve(ctx, maze, g, a, b, dict(kind="long-lived", phase="sweep after 65536 queries on the same object", shape=(R, C), cl=cl, s=a, e=b), cache)
-            ctx.tally("c02:long-lived-objects")
+    # ---- (2e) one long-lived maze object answering more than 2**16 queries (counters / epochs / caches that wrap or fill up).
+    # For each candidate period P: a full sweep (queries 1..L), cheap filler queries in one corner, and the same sweep again starting
+    # exactly at query 1+P, so that a per-object counter that wraps with period P meets the marks its first sweep left behind -------
+    periods = [2**16 - 1, 2**16, 2**15 - 1, 2**15, 255, 256, 1000, 2**16 + 1]
+    for pi, P in enumerate(periods):
+        if not ctx.mine(3 * pi + 1):
+            continue
+        rng = ctx.sub_rng("longlived", P)
+        R, C = [(3, 3), (3, 4)][pi % 2]
+        fam, cl = ref.random_structure(R, C, rng, ["ring", "cyc3", "tree"][pi % 3])
+        g = Graph(cl)
+        maze = lib.lattice(cl)
+        cells = ref.all_cells(R, C)
+        cache = {}
+        allpairs = [(a, b) for a in cells for b in cells]
+        corner = [cells[0], g.adj[cells[0]][0]] if g.adj[cells[0]] else [cells[0]]
+        # a few far-reaching queries away from the filler corner, asked once at the very beginning ...
+        far = sorted(allpairs, key=lambda ab: -len(g.bfs(ab[0])))[:1] + [(cells[-1], cells[len(cells) // 2]), (cells[len(cells) // 2], cells[-1]), (cells[-1], cells[-1])]
+        q = 0
+        for rep in range(2):
+            for (a, b) in far:
+                q += 1
+                _solve(ctx, maze, g, a, b, dict(kind="long-lived", phase=f"far query, #{q} on this object", period=P, shape=(R, C), cl=cl, s=a, e=b), cache)
+            # ... then only cheap queries inside one corner until exactly P queries later the same far queries are asked again:
+            # whatever per-object marks the first ones left (and nothing refreshed since) meets a counter that has come round once
+            while q % P != 0:
+                q += 1
+                a = corner[q % len(corner)]; b = corner[(q // 2) % len(corner)]
+                _solve(ctx, maze, g, a, b, dict(kind="long-lived", phase=f"filler query #{q}", period=P, shape=(R, C), cl=cl, s=a, e=b), cache)
+        for (a, b) in far + allpairs:
+            q += 1
+            _solve(ctx, maze, g, a, b, dict(kind="long-lived", phase=f"query #{q} on this object", period=P, shape=(R, C), cl=cl, s=a, e=b), cache)
+        ctx.tally("c02:long-lived-objects")
     # ---- (2f) mazes of different shape whose connection arrays hold the same bytes, queried alternately --------------------------
     fams = [[(2, 3), (3, 2)], [(2, 4), (4, 2)], [(1, 4), (2, 2), (4, 1)], [(3, 4), (4, 3), (2, 6), (6, 2)], [(2, 2), (1, 4)], [(4, 4), (2, 8), (8, 2)]]
     jj = 0
